@@ -380,6 +380,13 @@ class Checker:
             else:
                 ra.append(rr)
         rk = {k: self.role(v, env) for k, v in kws.items()}
+        # named access independent of the positional/keyword spelling
+        names = contracts.positional_names(self.pkg, t)
+        if names is not None and not any(a[0] == "star" for a in args):
+            for i, a in enumerate(args):
+                if i < len(names) and names[i] not in kws:
+                    kws[names[i]] = a
+                    rk[names[i]] = self.role(a, env)
         if f[0] == "attr":
             base = self.role(f[1], env)
             m = f[2]
@@ -488,8 +495,6 @@ class Checker:
             self.region_arg(q, r, term)
             for kwn, want_kind in (("shape", "cnt"), ("spacing", "sp")):
                 rr = rk.get(kwn)
-                if rr is None and q.endswith("shape_to_spacing") and kwn == "shape" and len(ra) > 1:
-                    rr = ra[1]
                 if isinstance(rr, Tup) and len(rr.elts) == 2 and all(isinstance(e, A) for e in rr.elts):
                     ok = rr.elts[0].axis in ("N", "-") and rr.elts[1].axis in ("E", "-")
                     self.note(ok, "shape-spacing-arg", q.rsplit(".", 1)[1] + " " + kwn, "%s= %s" % (kwn, rr))
@@ -511,7 +516,7 @@ class Checker:
             r = ra[0] if ra else rk.get("coordinates")
             if isinstance(r, Tup) and len(r.elts) >= 2 and all(isinstance(e, A) for e in r.elts[:2]):
                 self.note(r.elts[0].axis == "E" and r.elts[1].axis == "N", "coords-arg", q.rsplit(".", 1)[1], "%s receives %s" % (q.rsplit(".", 1)[1], r))
-            if q.endswith("make_xarray_grid") and "dims" in rk:
+            if q.endswith("make_xarray_grid") and rk.get("dims") is not None:
                 d = rk["dims"]
                 if isinstance(d, Tup) and len(d.elts) == 2 and all(isinstance(e, A) and e.kind == "name" for e in d.elts):
                     self.note(d.elts[0].axis == "N" and d.elts[1].axis == "E", "dims-arg", "make_xarray_grid dims", "dims=%s" % d)
